@@ -187,6 +187,9 @@ func (r *reader) headerStage(rule string) []*hdrPath {
 	opts := core.Opts{Unroll: 0, Inline: r.inl()}
 	opts.Stop = r.acceptEffect
 	c.explore(rule, r.advance, opts, func(p *core.Path) {
+		if p.End == core.EndCut {
+			return // one more iteration of a generalised loop: covered by the path that leaves the generalised head
+		}
 		var P *core.Term
 		first := -1
 		for i := range p.Events {
